@@ -45,7 +45,7 @@ def main(argv):
         # the property's own example through the real diagnostics (informative: it is an instance of the K1 finding)
         rc, out, err = ck.run_bin(bins["c15"], ["diag"])
         if rc == 0 and out.strip():
-            d = json.loads(out.splitlines()[-1])
+            d = json.loads(jlines(out)[-1])
             ck.cov["distribution"]["property_example_diagnostics"] = d["codes"]
             ck.sample({"kind": "the property's example through diagnose_file", "text": d["text"], "diagnostic_codes": d["codes"]})
     ck.finish(
